@@ -709,7 +709,10 @@ pub fn check_name_selection(c: &NameCase) -> Outcome {
 /// rotation interrupted half-way (unreadable key: the reload fails, the old identity stays), and a good rotation again that
 /// also replaces the client CA. After every step new handshakes must see exactly the identity on disk at the last *successful*
 /// reload and be authenticated under the client CA of that reload.
-pub fn check_signal_reload(_c: &u8) -> Outcome {
+pub fn check_signal_reload(c: &u8) -> Outcome {
+    // case 1: the configured paths are symbolic links from the start (certbot's live/ directory, Kubernetes' ..data), rotation
+    // also happens by re-pointing them
+    let links_from_start = *c == 1;
     use rusty_penguin_lib::arg::ServerArgs;
     let files = Files::new();
     let ca = make_ca("trusted ca", 0);
@@ -729,6 +732,13 @@ pub fn check_signal_reload(_c: &u8) -> Outcome {
     let cert_path = files.write("cert.pem", &l0.0);
     let key_path = files.write("privkey.pem", &l0.1);
     let cca_path = files.write("clientca.pem", &client_cas[0].pem);
+    if links_from_start {
+        for path in [&cert_path, &key_path, &cca_path] {
+            let target = format!("{path}.gen0");
+            std::fs::rename(path, &target).unwrap();
+            std::os::unix::fs::symlink(&target, path).unwrap();
+        }
+    }
     let port = rt().block_on(async { tokio::net::TcpListener::bind("127.0.0.1:0").await.unwrap().local_addr().unwrap().port() });
     let args: &'static ServerArgs = Box::leak(Box::new(ServerArgs {
         host: vec!["127.0.0.1".to_string()],
@@ -853,6 +863,30 @@ pub fn check_signal_reload(_c: &u8) -> Outcome {
             if connect(Some(&client_paths[1])).await.is_ok() {
                 return Err(("c17-reload-unauthenticated-client-accepted".to_string(), "after the client CA was rolled back through SIGUSR1 a certificate under the CA that was just removed is still accepted".to_string()));
             }
+            // 5. and 6. rotation by re-pointing symbolic links (twice: the first time the configured path may still be a regular file,
+            //    the second time it is a link that was a link at the previous reload as well): the new files get new names, a new
+            //    link is created next to the configured path and renamed over it
+            for (rot, cca) in [(5u32, 1usize), (6, 0)] {
+                let l = leaf(rot);
+                for (path, content) in [(&cert_path, &l.0), (&key_path, &l.1), (&cca_path, &client_cas[cca].pem)] {
+                    let target = format!("{path}.gen{rot}");
+                    std::fs::write(&target, content).unwrap();
+                    let lnk = format!("{path}.lnk");
+                    let _ = std::fs::remove_file(&lnk);
+                    std::os::unix::fs::symlink(&target, &lnk).unwrap();
+                    std::fs::rename(&lnk, path).unwrap();
+                }
+                usr1().await?;
+                if !wait_leaf(l.2.clone(), client_paths[cca].clone()).await {
+                    return Err((
+                        "c17-signal-reload-not-applied:relinked".to_string(),
+                        format!("the configured certificate, key and client-CA paths were re-pointed (symbolic links renamed into place) to new files; 5 s after SIGUSR1 new handshakes still see the previous identity / client CA (paths were links from the start: {links_from_start}, rotation {rot})"),
+                    ));
+                }
+                if connect(Some(&client_paths[1 - cca])).await.is_ok() {
+                    return Err(("c17-reload-unauthenticated-client-accepted".to_string(), "after the client CA link was re-pointed and SIGUSR1 sent, a certificate under the replaced CA is still accepted".to_string()));
+                }
+            }
             Ok(())
         }
         .await;
@@ -861,6 +895,6 @@ pub fn check_signal_reload(_c: &u8) -> Outcome {
     });
     match r {
         Err((sig, msg)) => Outcome::violation(sig, msg),
-        Ok(()) => Outcome::pass(true, vec!["reload-via-sigusr1"]),
+        Ok(()) => Outcome::pass(true, vec![if links_from_start { "reload-via-sigusr1-paths-are-symlinks" } else { "reload-via-sigusr1" }]),
     }
 }
